@@ -301,9 +301,13 @@ func c15Case(c *Ctx) {
 func c15History(c *Ctx, r *gen.R, nops int, sample bool) {
 	pool := &c15Pool{}
 	// shared RequireSets backing array (with spare capacity)
-	pool.shared = make([]string, 2, 4)
+	pool.shared = make([]string, 2, 6)
 	pool.shared[0], pool.shared[1] = "ab", "01"
 	pool.shared = pool.shared[:2]
+	if r.Chance(1, 2) { // empty strings between the sets: documented to be ignored, and must be left where they are
+		pool.shared = pool.shared[:4]
+		pool.shared[0], pool.shared[1], pool.shared[2], pool.shared[3] = "", "ab", "", "01"
+	}
 	nchar := r.Range(1, 2)
 	for i := 0; i < nchar; i++ {
 		rec := smallCharRecipe(r, 8, 6, 2)
@@ -322,6 +326,9 @@ func c15History(c *Ctx, r *gen.R, nops int, sample bool) {
 	nlist := r.Range(1, 2)
 	for i := 0; i < nlist; i++ {
 		in := wlInput(r, 2, 6, false, false) // capitalisable words only: choice records must not depend on which word sits at an index
+		for try := 0; try < 50 && !oracle.PremiseHolds(oracle.Normalize(in)); try++ {
+			in = wlInput(r, 2, 6, false, false) // two entries sharing a title-cased form make the record ambiguous
+		}
 		backing := make([]string, len(in), len(in)+2)
 		copy(backing, in)
 		backing[:cap(backing)][len(in)] = "tail"
@@ -381,7 +388,11 @@ func c15History(c *Ctx, r *gen.R, nops int, sample bool) {
 					ch.rec.ExcludeChars = subsetOf(r, oracle.Chars("abcxyz019"), 0, 2)
 				case 5: // in-place edit of the backing array
 					if len(ch.rec.RequireSets) > 0 {
-						ch.rec.RequireSets[r.Intn(len(ch.rec.RequireSets))] = subsetOf(r, oracle.Chars("abxy01"), 1, 2)
+						v := subsetOf(r, oracle.Chars("abxy01"), 1, 2)
+						if r.Chance(1, 4) {
+							v = ""
+						}
+						ch.rec.RequireSets[r.Intn(len(ch.rec.RequireSets))] = v
 					}
 				case 6:
 					ch.rec.Require = spg.CTFlag([]int{0, 4, 8}[r.Intn(3)])
